@@ -1204,11 +1204,51 @@ class Exec:
         """all(...) / any(...) over a generator expression that is not evaluated element-wise: an unknown boolean
         (over-approximation: both outcomes are explored; the element expressions are tests without effect)"""
         if isinstance(gen, Opaque) and gen.name == 'genexp':
+            r = self._allany_concrete(is_all, gen.data[0], st)
+            if r is not None:
+                return r
             return [(st, SBool(fresh('all' if is_all else 'any', z3.BoolSort())))]
         if isinstance(gen, tuple):
             parts = [self.truth(x, st) for x in gen]
             return [(st, self.wrapb(self.conj(parts) if is_all else self.disj(parts)))]
         return NotImplemented
+
+    def _allany_concrete(self, is_all, node, st):
+        """all/any over a generator expression whose single iterable is a CONCRETE sequence (a tuple, or a list with known
+        elements): the element expression is evaluated for every element (tests without effect) and the results are
+        combined; None if the generator is not of that kind or an element evaluation forks"""
+        if len(node.generators) != 1 or node.generators[0].ifs or not isinstance(node.generators[0].target, ast.Name):
+            return None
+        g = node.generators[0]
+        marks = len(self.goals)
+        try:
+            probe = st.fork()
+            rr = self.eval(g.iter, probe)
+            if len(rr) != 1:
+                return None
+            seq = rr[0][1]
+            if isinstance(seq, LRef):
+                items = probe.lists[seq.lid]
+                if not all(it[0] == 'el' for it in items):
+                    return None
+                seq = tuple(it[1] for it in items)
+            if not isinstance(seq, tuple) or self.W.is_tt(seq):
+                return None
+            parts = []
+            for x in seq:
+                s1 = st.fork()
+                s1.env = dict(st.env)
+                s1.env[g.target.id] = x
+                r1 = self.eval(node.elt, s1)
+                if len(r1) != 1 or len(r1[0][0].pc) != len(st.pc):
+                    return None
+                parts.append(self.truth(r1[0][1], r1[0][0]))
+            res = self.conj(parts) if is_all else self.disj(parts)
+            return [(st, self.wrapb(res))]
+        except (OutsideSubset, PyExc):
+            return None
+        finally:
+            del self.goals[marks:]
 
     def call(self, f, args, kw, st, node=None):
         """returns list of (state, value)"""
